@@ -881,3 +881,7 @@ mod tests {
         assert_eq!(empty_room_id, last_id);
     }
 }
+
+#[cfg(discret_verif)]
+#[path = "/verif/hooks/daily_log.rs"]
+pub(crate) mod verif_hook;
